@@ -97,7 +97,7 @@ PROPS = {
         "assumptions": _ASSUME,
     },
     "C16": {
-        "suites": ["frameread"],
+        "suites": ["frameread", "hpackdec"],
         "rule": "all 2^16 (type,flags) headers x short payloads, impossible fixed sizes / pad lengths / SETTINGS values, "
                 "lengths around the limit with the payload present or cut, every prefix of valid frame streams read to "
                 "the end on one reader, every prefix of single frames, random soups, reads with mixed limits (ReadFrameFrom / ReadFrameFromWithSize(0, 100, 2^14, 2^20, ...)) on one pool; pool tracker log compared per call",
